@@ -272,123 +272,149 @@ def _given(om):
     return bool(om)
 
 
-def run_table(inp, exp):
+def safe_content(t, A, k):
+    """content() of a possibly corrupt table: an exception is an observation, not a driver error."""
+    r = _call(lambda: content(t, A, k))
+    return r[1] if r[0] == "ok" else ["unreadable", r[1]]
+
+
+def build_table(A, sp, how, nb, refs=None, kb=None, T=None):
+    """One of the six ways of making a table. `kb` = {"arrays","ids","keeps"} for the builders
+    that take k-mer arrays (values from the specification)."""
+    if how == "sequences":
+        return build_from_sequences(A, sp, refs, nb)
+    if how == "kmers":
+        return build_from_kmers(A, sp, kb["arrays"], kb["ids"], kb["keeps"], nb)
+    if how == "selection":
+        return build_from_selection(A, sp, kb["arrays"], kb["ids"], kb["keeps"], nb)
+    if how == "tables":
+        return build_from_tables(A, sp, refs, nb)
+    if how == "positions":
+        return build_from_positions(A, sp, T)
+    if how == "pickle":
+        return pickle.loads(pickle.dumps(build_from_sequences(A, sp, refs, nb)))
+    raise ValueError(how)
+
+
+def table_query(t, A, sp, nb, op, args):
+    """One query of a real table -> [oc, canonical value]."""
     np = _np()
+    if op == "match":
+        return _call(lambda: _rows(t.match(mkseq(A, args["q"]), similarity_rule=rule_arg(args["rule_spec"], A),
+                                           ignore_mask=mask_arg(args["mask"]))))
+    if op == "match_table":
+        return _call(lambda: _rows(t.match_table(build_from_sequences(A, sp, args["other"], nb),
+                                                 similarity_rule=rule_arg(args["rule_spec"], A))))
+    if op == "match_kmer_selection":
+        return _call(lambda: _rows(t.match_kmer_selection(
+            np.array(args["pos"], dtype=np.uint32),
+            np.array([code_of(km, A) for km in args["kmers"]], dtype=np.int64))))
+    if op == "count":
+        return _call(lambda: [int(x) for x in t.count(
+            np.array([code_of(km, A) for km in args["kmers"]], dtype=np.int64)).tolist()])
+    if op == "get_kmers":
+        return _call(lambda: [int(x) for x in t.get_kmers().tolist()])
+    if op == "lookup":
+        return _call(lambda: _rows(t[code_of(args["kmer"], A)]))
+    if op == "count_all/iter/contains/len":
+        codes = [code_of(km, A) for km in args["kmers"]]
+        return _call(lambda: [[int(x) for x in t.count().tolist()], [int(x) for x in t],
+                              [c for c in codes if c in t], len(t)])
+    raise ValueError(op)
+
+
+def query_agrees(op, exp, obs):
+    if op == "match" and isinstance(exp, dict) and exp.get("oc") == "RejectedOrEmpty":
+        return obs[0] == "Rejected" or obs[1] == []
+    want = exp["out"] if (op == "match" and isinstance(exp, dict)) else exp
+    if obs[0] != "ok":
+        return False
+    if op in ("match", "match_table", "match_kmer_selection", "lookup"):
+        return same_set(obs[1], want)
+    return obs[1] == want
+
+
+def run_table(inp, exp):
     A, sp, refs = inp["A"], inp["sp"], inp["refs"]
     k = exp["k"]
-    T = exp["T"]
+    T = sorted(exp["T"])
     spaced = exp["spaced"]
     mism, calls = [], 0
     long_refs = [r for r, pr in zip(refs, exp["perRef"]) if not pr["short"]]
     long_pr = [pr for pr in exp["perRef"] if not pr["short"]]
-    arrays = [pr["kmers"] for pr in long_pr]
-    keeps = [pr["keep"] for pr in long_pr]
-    ids = [r["id"] for r in long_refs]
+    kb = {"arrays": [pr["kmers"] for pr in long_pr], "keeps": [pr["keep"] for pr in long_pr],
+          "ids": [r["id"] for r in long_refs]}
     kb_build = bool(spaced and any(pr["kb"] for pr in exp["perRef"]))
-    codes = [c for _km, c in exp["codes"]]
-    rules = [rule_arg(r, A) for r in exp["rules"]]
-    other_refs = exp["other"]
+    all_kmers = [km for km, _c in exp["codes"]]
+    present = sorted(code_of(km, A) for km in exp["present"])
     for nb in (0,) + BUCKETS:
-        tabs = {}
-        # ---- builders -------------------------------------------------------------------
-        b = _call(lambda: build_from_sequences(A, sp, refs, nb))
-        calls += 1
-        if b[0] == "ok":
-            c = content(b[1], A, k)
-            if c != sorted(T):
-                mism.append(_mm("table", "from_sequences", inp, {"nb": nb}, T, c, kb_spaced_mask=kb_build))
+        tabs, origin = {}, {}
+
+        def made(how, built_refs, expect_reject_ok=False, kbflag=False):
+            nonlocal calls
+            if how == "pickle":     # pickle the table that was just verified (no second build)
+                r = _call(lambda: pickle.loads(pickle.dumps(tabs["sequences"])))
             else:
-                tabs["sequences"] = b[1]
-        elif exp["build"]["oc"] != "RejectedOrEmpty":
-            mism.append(_mm("table", "from_sequences", inp, {"nb": nb}, exp["build"], b, kb_spaced_mask=False))
-        for name, fn in (("kmers", lambda: build_from_kmers(A, sp, arrays, ids, keeps, nb)),
-                         ("selection", lambda: build_from_selection(A, sp, arrays, ids, keeps, nb)),
-                         ("tables", (lambda: build_from_tables(A, sp, long_refs, nb)) if not kb_build else None),
-                         ("positions", (lambda: build_from_positions(A, sp, T)) if nb == 0 else None)):
-            if fn is None:
-                continue
-            r = _call(fn)
+                r = _call(lambda: build_table(A, sp, how, nb, refs=built_refs, kb=kb, T=T))
             calls += 1
+            args = {"nb": nb, "built": how, "refs": built_refs, "kb": kb if how in ("kmers", "selection") else None}
             if r[0] != "ok":
-                mism.append(_mm("table", "from_" + name, inp, {"nb": nb}, T, r))
-                continue
-            c = content(r[1], A, k)
-            if c != sorted(T):
-                mism.append(_mm("table", "from_" + name, inp, {"nb": nb}, T, c))
-            else:
-                tabs[name] = r[1]
-        base = tabs["sequences"] if "sequences" in tabs else tabs.get("kmers")
-        if base is None:
+                if not expect_reject_ok:
+                    mism.append(_mm("table", "build", inp, args, T, r, kb_spaced_mask=kbflag))
+                return
+            c = safe_content(r[1], A, k)
+            if c != T:
+                mism.append(_mm("table", "build", inp, args, T, c, kb_spaced_mask=kbflag))
+                return
+            if how == "pickle" and not (r[1] == tabs["sequences"]):
+                mism.append(_mm("table", "pickle_equal", inp, args, True, False))
+            tabs[how] = r[1]
+            origin[how] = args
+
+        made("sequences", refs, expect_reject_ok=exp["build"]["oc"] == "RejectedOrEmpty", kbflag=kb_build)
+        made("kmers", None)
+        made("selection", None)
+        if not kb_build:
+            made("tables", long_refs)
+        if nb == 0:
+            made("positions", None)
+        if "sequences" in tabs:
+            made("pickle", refs, kbflag=kb_build)
+        base_name = "sequences" if "sequences" in tabs else ("kmers" if "kmers" in tabs else None)
+        if base_name is None:
             continue
-        # pickling: same content, equal to the original
-        r = _call(lambda: pickle.loads(pickle.dumps(base)))
-        calls += 1
-        if r[0] != "ok" or content(r[1], A, k) != sorted(T) or not (r[1] == base):
-            mism.append(_mm("table", "pickle", inp, {"nb": nb}, T,
-                            [r[0], content(r[1], A, k) if r[0] == "ok" else r[1]]))
-        else:
-            tabs["pickle"] = r[1]
-        # ---- counting / lookup / iteration on every table ----------------------------------
-        for bname, t in tabs.items():
-            obs = _call(lambda: [int(x) for x in t.count(np.array(codes, dtype=np.int64)).tolist()])
+
+        def ask(bname, op, args, want, **kw):
+            nonlocal calls
+            obs = table_query(tabs[bname], A, sp, nb, op, args)
             calls += 1
-            if obs != ["ok", exp["counts"]]:
-                mism.append(_mm("table", "count", inp, {"nb": nb, "built": bname}, exp["counts"], obs))
-            present = sorted(code_of(km, A) for km in exp["present"])
-            obs = _call(lambda: [int(x) for x in t.get_kmers().tolist()])
-            calls += 1
-            if obs != ["ok", present]:
-                mism.append(_mm("table", "get_kmers", inp, {"nb": nb, "built": bname}, present, obs))
+            if not query_agrees(op, want, obs):
+                mism.append(_mm("table", op, inp, dict(args, table=origin[bname]), want, obs, **kw))
+
+        # ---- counting / lookup / iteration: one table per origin ------------------------------
+        for bname in tabs:
+            if bname in ("kmers", "selection", "positions") and bname != base_name:
+                continue
+            ask(bname, "count", {"kmers": all_kmers}, exp["counts"])
+            ask(bname, "get_kmers", {}, present)
             if nb == 0:
-                obs = _call(lambda: [[int(x) for x in t.count().tolist()], [int(x) for x in t],
-                                     [c for c in codes if c in t], len(t)])
-                calls += 1
-                want = [exp["counts"], present, present, len(codes)]
-                if obs != ["ok", want]:
-                    mism.append(_mm("table", "count_all/iter/contains/len", inp, {"built": bname}, want, obs))
-            for (km, c), want in zip(exp["codes"], exp["lookups"]):
-                obs = _call(lambda: _rows(t[int(c)]))
-                calls += 1
-                if obs[0] != "ok" or not same_set(obs[1], want):
-                    mism.append(_mm("table", "lookup", inp, {"nb": nb, "built": bname, "kmer": km}, want, obs))
+                ask(bname, "count_all/iter/contains/len", {"kmers": all_kmers},
+                    [exp["counts"], present, present, len(all_kmers)])
+            for km, want in zip(all_kmers, exp["lookups"]):
+                ask(bname, "lookup", {"kmer": km}, want)
         # ---- matching ------------------------------------------------------------------------
-        for bname in ("sequences", "kmers", "tables", "pickle"):
-            t = tabs.get(bname)
-            if t is None or (bname == "kmers" and "sequences" in tabs):
+        for bname in (base_name, "tables", "pickle"):
+            if bname not in tabs:
                 continue
             for qi, qq in enumerate(exp["queries"]):
-                if bname != "sequences" and bname != "kmers" and qq["rule"] != 2 and len(qq["mask"]) == 0 and qi % 3:
+                if bname != base_name and qq["rule"] != 2 and len(qq["mask"]) == 0 and qi % 3:
                     continue   # merged / unpickled tables: a third of the plain queries, all others
-                q = mkseq(A, qq["q"])
-                obs = _call(lambda: _rows(t.match(q, similarity_rule=rules[qq["rule"] - 1],
-                                                  ignore_mask=mask_arg(qq["mask"]))))
-                calls += 1
-                e = qq["res"]
-                if e["oc"] == "RejectedOrEmpty":
-                    ok = obs[0] == "Rejected" or obs[1] == []
-                else:
-                    ok = obs[0] == "ok" and same_set(obs[1], e["out"])
-                if not ok:
-                    mism.append(_mm("table", "match", inp, {"nb": nb, "built": bname, "q": qq["q"],
-                                                            "mask": qq["mask"], "rule": qq["rule"]}, e, obs,
-                                    kb_spaced_mask=bool(spaced and _given(qq["mask"]))))
-            # match_table
-            ot = _call(lambda: build_from_sequences(A, sp, other_refs, nb))
-            if ot[0] == "ok":
-                for ri, want in enumerate(exp["tmatch"]):
-                    obs = _call(lambda: _rows(t.match_table(ot[1], similarity_rule=rules[ri])))
-                    calls += 1
-                    if obs[0] != "ok" or not same_set(obs[1], want):
-                        mism.append(_mm("table", "match_table", inp, {"nb": nb, "built": bname, "rule": ri + 1},
-                                        want, obs))
-            # match_kmer_selection
-            sel = exp["sel"]
-            obs = _call(lambda: _rows(t.match_kmer_selection(
-                np.array(sel["pos"], dtype=np.uint32),
-                np.array([code_of(km, A) for km in sel["kmers"]], dtype=np.int64))))
-            calls += 1
-            if obs[0] != "ok" or not same_set(obs[1], sel["out"]):
-                mism.append(_mm("table", "match_kmer_selection", inp, {"nb": nb, "built": bname}, sel["out"], obs))
+                ask(bname, "match", {"q": qq["q"], "mask": qq["mask"], "rule_spec": exp["rules"][qq["rule"] - 1]},
+                    qq["res"], kb_spaced_mask=bool(spaced and _given(qq["mask"])))
+            for ri, want in enumerate(exp["tmatch"]):
+                ask(bname, "match_table", {"other": exp["other"], "rule_spec": exp["rules"][ri]}, want)
+            ask(bname, "match_kmer_selection", {"pos": exp["sel"]["pos"], "kmers": exp["sel"]["kmers"]},
+                exp["sel"]["out"])
     return mism, calls
 
 
@@ -588,7 +614,11 @@ def gen_trace(item):
             subject.update(oc=b[0], out=[])
             return {"events": [subject]}
         t = b[1]
-        subject.update(oc="ok", out=content(t, A, k))
+        c = safe_content(t, A, k)
+        if c and c[0] == "unreadable":
+            subject.update(oc="Unreadable", out=[])
+            return {"events": [subject]}
+        subject.update(oc="ok", out=c)
         ev.append(subject)
         # (with spaced k-mers and a mask the table may be wrong through the known spaced-mask
         #  defect; the queries below are judged against what the table really holds: the trace
@@ -723,8 +753,9 @@ def classify(mm):
         fam, op = mm.get("family"), mm.get("op")
         # (1) ignore masks with spaced k-mers
         if mm.get("kb_spaced_mask") and ((fam == "mask" and op in ("from_sequences", "match"))
-                                         or (fam == "table" and op in ("from_sequences", "match"))):
-            return KF_SPACED_MASK
+                                         or (fam == "table" and op in ("build", "match"))):
+            if fam == "mask" or op == "match" or mm.get("args", {}).get("built") == "sequences":
+                return KF_SPACED_MASK
         # (3) MincodeSelector returns a boolean mask in place of the positions; the mask marks
         #     exactly the expected positions and the k-mers are right
         if fam == "select" and op == "mincode.select":
@@ -883,43 +914,117 @@ def run(ctx):
 
 
 def replay(record):
+    """Re-execute one stored mismatch against the current code."""
     kind = record.get("kind")
     if kind == "case":
-        # re-run the whole input state is not possible without the expected record; the stored
-        # case carries the operation and its expected value
         fam, op, inp, args = record["family"], record["op"], record["inp"], record.get("args", {})
-        np = _np()
-        _, align = _mods()
-        try:
-            if fam == "table" and op in ("from_sequences", "match", "lookup", "count", "get_kmers"):
-                nb = args.get("nb", 0)
-                t = build_from_sequences(inp["A"], inp["sp"], inp["refs"], nb)
-                if op == "from_sequences":
-                    obs = content(t, inp["A"], len(inp["sp"]))
-                    return {"observed": obs, "expected": record["expected"],
-                            "mismatch": obs != sorted(record["expected"])}
-                if op == "match":
-                    rules = None
-                    obs = _rows(t.match(mkseq(inp["A"], args["q"]), ignore_mask=mask_arg(args["mask"])))
-                    return {"observed": obs, "expected": record["expected"], "note": "replayed without similarity rule"
-                            if args.get("rule", 1) != 1 else "",
-                            "mismatch": args.get("rule", 1) == 1 and not same_set(obs, record["expected"]["out"])}
-            if fam == "mask":
-                mm, _ = run_mask(inp, {"kept": record["expected"], "kb": True, "n": 0})
-                return {"mismatch": bool(mm), "details": mm[:2]}
-            if fam == "select" and op == "mincode.select":
-                ka2 = kmer_alphabet(inp["A"], [0, 1])
-                obs = _call(lambda: _sel_obs(align.MincodeSelector(ka2, args["compression"]).select(mkseq(inp["A"], inp["s"]))))
-                return {"observed": obs, "expected": record["expected"],
-                        "mismatch": args.get("order") == "plain" and not sel_agree(record["expected"], obs)}
-        except Exception as e:  # noqa: BLE001
-            return {"error": repr(e), "mismatch": True}
-        return {"error": "this case is replayed through ./check C10 (the expected record lives in TLC's dump)",
-                "record": {k: record[k] for k in ("family", "op", "inp", "args")}}
+        exp = record["expected"]
+        if fam == "table":
+            A, sp = inp["A"], inp["sp"]
+            k = len(sp)
+            org = args if op in ("build", "pickle_equal") else args["table"]
+            t = _call(lambda: build_table(A, sp, org["built"], org["nb"], refs=org.get("refs"), kb=org.get("kb"),
+                                          T=exp if op == "build" else None))
+            if op == "build":
+                obs = safe_content(t[1], A, k) if t[0] == "ok" else t
+                return {"observed": obs, "expected": exp, "mismatch": obs != sorted(exp)}
+            if t[0] != "ok":
+                return {"error": f"table cannot be built any more: {t}", "mismatch": True}
+            if op == "pickle_equal":
+                same = t[1] == build_from_sequences(A, sp, org["refs"], org["nb"])
+                return {"observed": bool(same), "expected": True, "mismatch": not same}
+            obs = table_query(t[1], A, sp, org["nb"], op, args)
+            return {"observed": obs, "expected": exp, "mismatch": not query_agrees(op, exp, obs)}
+        if fam == "kmers":
+            mm, _ = run_kmers(inp, {"r": exp if isinstance(exp, dict) else {"oc": "ok", "out": []},
+                                    "n": exp if isinstance(exp, int) else -1})
+            mm = [m for m in mm if m["op"] == op]
+            return {"mismatch": bool(mm), "details": mm[:2]}
+        if fam == "mask":
+            mm, _ = run_mask(inp, {"kept": exp, "kb": True, "n": 0})
+            return {"mismatch": bool(mm), "details": mm[:2]}
+        if fam == "mini":
+            e = {"plain": exp, "freq": exp, "counts": [5, 0, 5, 1]}
+            mm, _ = run_mini(inp, e)
+            mm = [m for m in mm if m["args"] == args]
+            return {"mismatch": bool(mm), "details": mm[:1]}
+        if fam == "select":
+            return _replay_select(inp, op, args, exp)
     if kind == "event":
-        return {"error": "recorded events are replayed through ./check C10 (same VERIF_SEED)", "record": record,
-                "mismatch": True}
+        return _replay_event(record)
     return {"error": "unknown record", "record": record}
+
+
+def _replay_select(inp, op, args, exp):
+    _, align = _mods()
+    A = inp["A"]
+    q = mkseq(A, inp["s"])
+    al = alphabet(A)
+    ka2 = kmer_alphabet(A, [0, 1])
+    perm = None
+    if args.get("order") == "freq":
+        perm = _freq_perm(ka2, [(c * 7) % 5 for c in range(1, A ** 2 + 1)])   # MCKmer!SelCounts
+    if op == "minimizer.select":
+        fn = lambda: align.MinimizerSelector(ka2, args["w"], perm).select(q)  # noqa: E731
+    elif op in ("syncmer.select", "cached_syncmer.select", "syncmer.select_from_kmers"):
+        cls = align.CachedSyncmerSelector if op.startswith("cached") else align.SyncmerSelector
+        sel = lambda: cls(al, args["k"], args["s"], perm, tuple(args["offset"]))  # noqa: E731
+        if op.endswith("from_kmers"):
+            fn = lambda: sel().select_from_kmers(kmer_alphabet(A, list(range(args["k"]))).create_kmers(q.code))  # noqa: E731
+        else:
+            fn = lambda: sel().select(q)  # noqa: E731
+    elif op == "mincode.select":
+        fn = lambda: align.MincodeSelector(ka2, args["compression"], perm).select(q)  # noqa: E731
+    else:
+        return {"error": f"unknown selector op {op}", "mismatch": True}
+    obs = _call(lambda: _sel_obs(fn()))
+    return {"observed": obs, "expected": exp, "mismatch": not sel_agree(exp, obs)}
+
+
+def _replay_event(record):
+    """Recorded call: execute it again on the recorded subject and compare with TLC's value."""
+    _, align = _mods()
+    np = _np()
+    e, subj = record["call"], record["subject"]
+    eoc, eout = record.get("expected_oc"), record.get("expected_out")
+    if subj["op"] == "table":
+        A, sp, nb = subj["A"], subj["sp"], subj["nb"]
+        k = len(sp)
+        t = _call(lambda: build_from_sequences(A, sp, subj["refs"], nb))
+        if e["op"] == "table":
+            obs = safe_content(t[1], A, k) if t[0] == "ok" else t
+            return {"observed": obs, "expected": eout, "mismatch": obs != sorted(eout)}
+        if t[0] != "ok":
+            return {"error": f"table cannot be built: {t}", "mismatch": True}
+        op = {"match_sel": "match_kmer_selection"}.get(e["op"], e["op"])
+        args = dict(e, rule_spec=e.get("rule", []))
+        if op == "get_kmers":
+            obs = _call(lambda: [kmer_of(int(c), A, k) for c in t[1].get_kmers().tolist()])
+            return {"observed": obs, "expected": eout, "mismatch": obs[0] != "ok" or not same_set(obs[1], eout)}
+        obs = table_query(t[1], A, sp, nb, op, args)
+        if eoc == "RejectedOrEmpty":
+            bad = not (obs[0] == "Rejected" or obs[1] == [])
+        else:
+            bad = not query_agrees(op, eout, obs)
+        return {"observed": obs, "expected": [eoc, eout], "mismatch": bad,
+                "note": "queries are judged against the specification's table here; the recorded run judged them against the logged content"}
+    # selector events carry the keys; the call is repeated only where the keys can be rebuilt
+    if e.get("perm") == "none":
+        A = subj["A"]
+        q = mkseq(A, subj["s"])
+        ka = kmer_alphabet(A, list(range(e["k"])))
+        if e["op"] == "minimizers":
+            fn = lambda: align.MinimizerSelector(ka, e["w"]).select(q)  # noqa: E731
+        elif e["op"] == "syncmers":
+            cls = align.CachedSyncmerSelector if e.get("cached") else align.SyncmerSelector
+            fn = lambda: cls(alphabet(A), e["k"], e["s"], None, tuple(e["offsets"])).select(q)  # noqa: E731
+        else:
+            fn = lambda: align.MincodeSelector(ka, e["c"]).select(q)  # noqa: E731
+        obs = _call(lambda: _sel_obs(fn()))
+        return {"observed": obs, "expected": [eoc, eout],
+                "mismatch": not sel_agree({"oc": eoc, "out": eout}, obs)}
+    return {"error": "selector call with a seeded permutation: replay through ./check C10 with the same VERIF_SEED",
+            "record": record, "mismatch": True}
 
 
 MANIFEST = {
